@@ -51,6 +51,7 @@ var (
 	holders []sdk.AccAddress
 	modAddr sdk.AccAddress
 	admin   sdk.AccAddress
+	seeder  sdk.AccAddress
 )
 
 func dec(s string) sdk.Dec { return sdk.MustNewDecFromStr(s) }
@@ -98,10 +99,15 @@ func basketJSON(b types.Basket) jbasket {
 	return j
 }
 
+type sib struct {
+	B      types.Basket
+	Supply sdk.Int
+}
 type post struct {
 	B      types.Basket
 	Supply sdk.Int
 	Bals   [][]sdk.Int
+	Sibs   []sib // baskets 2, 3, ... with the bank supply of their tokens
 }
 
 func observe(ctx sdk.Context) post {
@@ -118,6 +124,13 @@ func observe(ctx sdk.Context) post {
 		}
 		p.Bals = append(p.Bals, row)
 	}
+	for id := uint64(2); id <= app.BasketKeeper.GetLastBasketId(ctx); id++ {
+		sb, err := app.BasketKeeper.GetBasketById(ctx, id)
+		if err != nil {
+			panic(err)
+		}
+		p.Sibs = append(p.Sibs, sib{sb, app.BankKeeper.GetSupply(ctx, sb.GetBasketDenom()).Amount})
+	}
 	return p
 }
 func (p post) coq() string {
@@ -129,7 +142,11 @@ func (p post) coq() string {
 		}
 		rows = append(rows, hx.List(xs))
 	}
-	return fmt.Sprintf("(mkP %s %s %s)", basketCoq(p.B), hx.ZInt(p.Supply), hx.List(rows))
+	var sibs []string
+	for _, sb := range p.Sibs {
+		sibs = append(sibs, hx.Pair(basketCoq(sb.B), hx.ZInt(sb.Supply)))
+	}
+	return fmt.Sprintf("(mkP %s %s %s %s)", basketCoq(p.B), hx.ZInt(p.Supply), hx.List(rows), hx.List(sibs))
 }
 func (p post) json() map[string]interface{} {
 	var rows [][]string
@@ -140,7 +157,11 @@ func (p post) json() map[string]interface{} {
 		}
 		rows = append(rows, xs)
 	}
-	return map[string]interface{}{"basket": basketJSON(p.B), "supply": p.Supply.String(), "balances_account_x_denom": rows}
+	var sibs []map[string]interface{}
+	for i, sb := range p.Sibs {
+		sibs = append(sibs, map[string]interface{}{"id": i + 2, "basket": basketJSON(sb.B), "supply": sb.Supply.String()})
+	}
+	return map[string]interface{}{"basket": basketJSON(p.B), "supply": p.Supply.String(), "balances_account_x_denom": rows, "other_baskets": sibs}
 }
 
 // ---------------------------------------------------------------- one history
@@ -200,12 +221,38 @@ func startHist(kind string, cfg types.Basket, funds [][]int64, dist hx.Counter) 
 			fund(ctx, holders[h], d, funds[h][d])
 		}
 	}
+	seedSibling(ctx)
 	h := &hist{ctx: ctx, now: T0*NS + 123456789, dist: dist}
 	h.cur = observe(ctx)
 	h.init = h.cur
 	h.j = jcase{Kind: kind, Denoms: denoms, Init: h.cur.json()}
 	h.steps = nil
 	return h
+}
+
+// seedSibling creates basket 2 (same reserve denominations xaa, xbb as basket 1, same module account)
+// through the real proposal handler and gives it reserves and a surplus through the real msg server
+// (a separate account mints and swaps), so that every history runs next to another funded basket
+func seedSibling(ctx sdk.Context) {
+	c2 := plainConfig("1", "2")
+	c2.Suffix, c2.SwapFee, c2.SlipppageFeeMin = "ww", dec("0.05"), sdk.ZeroDec()
+	if err := basket.NewApplyCreateBasketProposalHandler(app.BasketKeeper).Apply(ctx, 1, &types.ProposalCreateBasket{Basket: c2}, sdk.ZeroDec()); err != nil {
+		panic("create basket 2: " + err.Error())
+	}
+	fund(ctx, seeder, 1, 100000)
+	fund(ctx, seeder, 2, 100000)
+	must := func(err error) {
+		if err != nil {
+			panic("seed basket 2: " + err.Error())
+		}
+	}
+	g := sdk.WrapSDKContext(ctx.WithBlockTime(time.Unix(T0, 0).UTC()))
+	_, err := msgServer.BasketTokenMint(g, &types.MsgBasketTokenMint{Sender: seeder.String(), BasketId: 2, Deposit: sdk.NewCoins(sdk.NewInt64Coin(denoms[1], 50000), sdk.NewInt64Coin(denoms[2], 25000))})
+	must(err)
+	_, err = msgServer.BasketTokenSwap(g, &types.MsgBasketTokenSwap{Sender: seeder.String(), BasketId: 2, Pairs: []types.SwapPair{{InAmount: sdk.NewInt64Coin(denoms[1], 4000), OutToken: denoms[2]}}})
+	must(err)
+	_, err = msgServer.BasketTokenSwap(g, &types.MsgBasketTokenSwap{Sender: seeder.String(), BasketId: 2, Pairs: []types.SwapPair{{InAmount: sdk.NewInt64Coin(denoms[2], 1500), OutToken: denoms[1]}}})
+	must(err)
 }
 
 // run executes f on a cache of the history's state at the current block time and commits on success
@@ -319,6 +366,58 @@ func (h *hist) disable(which int, allowed bool) bool {
 
 // upsertKills: the pool-upsert hook replaces the record of basket 1 (probed); such a history ends there
 var upsertKills = true
+
+// withdraw runs the real ProposalBasketWithdrawSurplus handler with the basket ids as listed
+func (h *hist) withdraw(ids []uint64, target int) bool {
+	var l []string
+	for _, id := range ids {
+		l = append(l, fmt.Sprint(id))
+	}
+	return h.run(fmt.Sprintf("OWithdraw %s %d", hx.List(l), target), "withdraw_surplus", map[string]interface{}{"basket_ids": ids, "target_holder": target},
+		func(ctx sdk.Context) error {
+			return basket.NewApplyBasketWithdrawSurplusProposalHandler(app.BasketKeeper).Apply(ctx, 3,
+				&types.ProposalBasketWithdrawSurplus{BasketIds: ids, WithdrawTarget: holders[target-1].String()}, sdk.ZeroDec())
+		})
+}
+
+// create runs the real ProposalCreateBasket handler
+func (h *hist) create(nb types.Basket) bool {
+	return h.run("OCreate "+basketCoq(nb), "create", map[string]interface{}{"proposal": basketJSON(nb), "suffix": nb.Suffix},
+		func(ctx sdk.Context) error {
+			return basket.NewApplyCreateBasketProposalHandler(app.BasketKeeper).Apply(ctx, 4, &types.ProposalCreateBasket{Basket: nb}, sdk.ZeroDec())
+		})
+}
+
+var idPool = [][]uint64{{1}, {2}, {1, 2}, {2, 1}, {1, 1}, {2, 2}, {2, 1, 2}, {1, 2, 1, 2}, {}, {3}, {1, 3}, {2, 7, 2}, {0}, {3, 3}, {2, 2, 2}}
+
+func (h *hist) genWithdraw(r *hx.Rng) {
+	ids := idPool[r.Intn(len(idPool))]
+	if r.Chance(25) { // arbitrary list with repetitions over the existing and a few unknown ids
+		ids = nil
+		for i := 0; i < r.Intn(5); i++ {
+			ids = append(ids, uint64(r.Intn(len(h.cur.Sibs)+3)))
+		}
+	}
+	h.withdraw(ids, 1+r.Intn(NH))
+}
+func (h *hist) genCreate(r *hx.Rng) {
+	nb := genConfig(r)
+	nb.Suffix = fmt.Sprintf("c%d", len(h.cur.Sibs)+2)
+	switch r.Intn(8) {
+	case 0:
+		nb.Tokens = nil
+	case 1:
+		nb.Tokens = append(nb.Tokens, nb.Tokens[0]) // repeated denomination
+	case 2:
+		nb.Tokens[0].Weight = sdk.ZeroDec()
+	case 3:
+		nb.Tokens[0].Amount = sdk.NewInt(r.Range(1, 100000)) // must be ignored
+		nb.Surplus = []sdk.Coin{sdk.NewInt64Coin(denoms[1], 55)}
+	case 4:
+		nb.Amount = sdk.NewInt(r.Range(1, 100000)) // a recorded amount in the proposal of a basket whose token does not exist yet
+	}
+	h.create(nb)
+}
 
 var valAddr = sdk.ValAddress([]byte("c11validator________"))
 
@@ -735,14 +834,22 @@ func genHistory(r *hx.Rng, dist hx.Counter) *hist {
 			}
 		case k < 85:
 			h.genEdit(r)
-		case k < 88:
+		case k < 87:
 			h.disable(r.Intn(3), r.Chance(60))
+		case k < 88:
+			h.genWithdraw(r)
 		case k < 91:
 			h.hook(0, pick(r, []string{"0.1", "0.5", "0.01", "1"}))
 		case k < 93:
 			h.hook(1, sdk.ZeroDec())
-		case k < 98:
+		case k < 96:
 			h.endBlock()
+		case k < 98:
+			if r.Chance(70) {
+				h.genWithdraw(r)
+			} else {
+				h.genCreate(r)
+			}
 		default:
 			if i > n/2 {
 				h.hook(2, sdk.ZeroDec())
@@ -926,6 +1033,28 @@ func scenarios(dist hx.Counter) []*hist {
 	h.mint(1, []int{1, 2}, []int64{1000, 500})
 	h.swap(1, []pair{{1, 100, 2}})
 	hs = append(hs, h)
+	// surplus withdrawal proposals listing baskets repeatedly, in both orders, unknown ids, no ids
+	h = startHist("scenario:withdraw_surplus_repeated_ids", plainConfig("1", "2"), plainFunds(), dist)
+	h.mint(1, []int{1, 2}, []int64{20000, 10000})
+	h.swap(2, []pair{{1, 3000, 2}})
+	h.withdraw([]uint64{2, 1, 2, 1}, 3)
+	h.swap(2, []pair{{2, 1000, 1}})
+	h.withdraw([]uint64{1, 3}, 3)
+	h.withdraw([]uint64{}, 3)
+	h.withdraw([]uint64{1, 1}, 4)
+	h.burn(1, 0, 1000)
+	c3 := plainConfig("0.5", "1", "3.7")
+	c3.Suffix = "c3"
+	h.create(c3)
+	h.withdraw([]uint64{3, 2, 3}, 1)
+	hs = append(hs, h)
+	// a create proposal whose basket carries a recorded amount
+	h = startHist("scenario:create_with_amount_field", plainConfig("1", "2"), plainFunds(), dist)
+	c4 := plainConfig("2", "1")
+	c4.Suffix, c4.Amount = "c3", sdk.NewInt(777)
+	h.create(c4)
+	h.mint(1, []int{1, 2}, []int64{1000, 500})
+	hs = append(hs, h)
 	// a validator upserts its staking pool
 	h = startHist("scenario:upsert_staking_pool_hook", plainConfig("1", "1"), plainFunds(), dist)
 	h.mint(1, []int{1, 2}, []int64{4000, 4000})
@@ -935,7 +1064,7 @@ func scenarios(dist hx.Counter) []*hist {
 }
 
 // which variant of the two repaired places does this tree implement?
-func probe() (burnPre, editKeep, upsertSkip bool) {
+func probe() (burnPre, editKeep, upsertSkip, createZero bool) {
 	d := hx.Counter{}
 	h := startHist("probe", plainConfig("1"), plainFunds(), d)
 	h.mint(1, []int{1}, []int64{1000})
@@ -953,6 +1082,11 @@ func probe() (burnPre, editKeep, upsertSkip bool) {
 	h.mint(1, []int{1}, []int64{1000})
 	h.hook(2, sdk.ZeroDec())
 	upsertSkip = h.cur.B.Amount.Equal(sdk.NewInt(1000)) && len(h.cur.B.Tokens) == 1
+	h = startHist("probe", plainConfig("1"), plainFunds(), d)
+	c3 := plainConfig("1")
+	c3.Suffix, c3.Amount = "c3", sdk.NewInt(777)
+	h.create(c3)
+	createZero = len(h.cur.Sibs) == 2 && h.cur.Sibs[1].B.Amount.IsZero()
 	return
 }
 
@@ -970,9 +1104,10 @@ func main() {
 		holders = append(holders, sdk.AccAddress([]byte(fmt.Sprintf("c11holder_________%02d", i+1))))
 	}
 	admin = sdk.AccAddress([]byte("c11admin____________"))
+	seeder = sdk.AccAddress([]byte("c11seeder___________"))
 	msgServer = basketkeeper.NewMsgServerImpl(app.BasketKeeper, app.CustomGovKeeper)
 
-	burnPre, editKeep, upsertSkip := probe()
+	burnPre, editKeep, upsertSkip, createZero := probe()
 	upsertKills = !upsertSkip
 	dist := hx.Counter{}
 	hs := scenarios(dist)
@@ -996,17 +1131,17 @@ func main() {
 	}
 	pre := "(* written by /verif/harness/cmd/c11 -- observations of the real code *)\n" +
 		"From Sekai Require Import Base.Prelude Base.Dec Model.Basket Model.C11Check.\n" +
-		fmt.Sprintf("Definition c11_variant : variant := mkV %s %s %s.\n", hx.B(burnPre), hx.B(editKeep), hx.B(upsertSkip))
+		fmt.Sprintf("Definition c11_variant : variant := mkV %s %s %s %s.\n", hx.B(burnPre), hx.B(editKeep), hx.B(upsertSkip), hx.B(createZero))
 	out.WriteFile("pre.v", pre)
 	out.WriteFile("cases.txt", strings.Join(lines, "\n")+"\n")
 	out.WriteJSON("meta.json", map[string]interface{}{"case_type": "c11_case", "mismatch_fn": "c11_mismatches c11_variant", "violation_fn": "c11_violations",
-		"burn_reads_supply_before": burnPre, "edit_keeps_amount": editKeep, "upsert_hook_skips": upsertSkip})
+		"burn_reads_supply_before": burnPre, "edit_keeps_amount": editKeep, "upsert_hook_skips": upsertSkip, "create_stores_zero_amount": createZero})
 	out.WriteJSON("cases.json", js)
 	byKind := map[string]int{}
 	for _, k := range dist.Sorted() {
 		byKind[k] = dist[k]
 	}
 	out.WriteJSON("dist.json", map[string]interface{}{"seed": seed, "histories": len(hs), "steps": steps, "holders": NH, "ops_by_kind_and_status": byKind,
-		"variant": map[string]bool{"burn_reads_supply_before": burnPre, "edit_keeps_amount": editKeep, "upsert_hook_skips": upsertSkip}})
+		"variant": map[string]bool{"burn_reads_supply_before": burnPre, "edit_keeps_amount": editKeep, "upsert_hook_skips": upsertSkip, "create_stores_zero_amount": createZero}})
 	fmt.Fprintf(os.Stderr, "c11: %d histories, %d steps\n", len(hs), steps)
 }
